@@ -1,4 +1,5 @@
 import BevySyncModel.Proofs.Promo
+import BevySyncModel.Proofs.Chain
 import BevySyncModel.Proofs.Snap
 import BevySyncModel.Generated.Promo
 /-! # C07 — host promotion hands the session over intact
@@ -47,12 +48,45 @@ theorem C07_one_client_completes :
     ∃ as : List Act, Settled (run (init 0) as) ∧ Done (run (init 0) as) :=
   ⟨_, one_client_completes⟩
 
-/-- the same machine hands over again: after `Done` the roles are those of `init 0` with the peers exchanged, so a
-chain of promotions in a one-client session is a chain of runs of this slice (the repaired `RenetClient` reuse, D7a,
-is what made the second run start from a connectable client) -/
+/-- after `Done` the roles are those of `init 0` with the peers exchanged (the repaired `RenetClient` reuse, D7a, is
+what made a second hand-over start from a connectable client); chains are proved on their own model below -/
 theorem C07_done_is_fresh_session (s : State) (h : Done s) :
     s.pSrv = true ∧ s.pClients = 1 ∧ s.hSrv = false ∧ s.pPromo = false ∧ s.hPromo = false :=
   ⟨h.2.1, h.2.2.2.2.1, h.1, h.2.2.2.2.2.2.2, h.2.2.2.2.2.2.1⟩
+
+/-- **C07, repeated promotions.** Two peers, each with both roles (`Slice/Chain.lean`); the application of whichever
+peer hosts requests a promotion whenever the session is at rest, any number of times, with the peers' frames and the
+network's part scheduled arbitrarily in between.  Whenever no frame moves anything any more the session is at rest
+again: exactly the peer chosen by the last request hosts, with one client; the other peer has closed its server, is
+connected and verified, both flags are clear, no message is pending, and that former host has asked for the snapshot
+exactly once in this hand-over (a returning client of C03, every time). -/
+theorem C07_chain_handover (as : List Chain.Act) (h : Chain.Settled (Chain.run Chain.rest0 as)) :
+    Chain.Handed (Chain.run Chain.rest0 as) :=
+  Chain.chain_handover as h
+
+/-- every request carried out is a completed hand-over: after `k` of them peer `b` hosts exactly when `k` is odd — a peer
+that has promoted before, was demoted and hosts again promotes as it did the first time -/
+theorem C07_chain_alternates (as : List Chain.Act) (h : Chain.Settled (Chain.run Chain.rest0 as)) :
+    Chain.RestAt (decide (Chain.requests Chain.rest0 as % 2 = 1)) (Chain.run Chain.rest0 as) :=
+  Chain.chain_alternates as h
+
+/-- along a chain somebody hosts at every moment and nobody asks for the snapshot twice in one hand-over -/
+theorem C07_chain_safe (as : List Chain.Act) :
+    ((Chain.run Chain.rest0 as).a.srv = true ∨ (Chain.run Chain.rest0 as).b.srv = true) ∧
+    (Chain.run Chain.rest0 as).a.snapReq ≤ 1 ∧ (Chain.run Chain.rest0 as).b.snapReq ≤ 1 :=
+  Chain.chain_safe as
+
+/-- the chain model restricted to its first hand-over is the single hand-over above, schedule by schedule -/
+theorem C07_chain_first_is_handover (as : List Promo.Act) :
+    Chain.view (Chain.run Chain.first0 (as.flatMap Chain.lift)) = run (init 0) as :=
+  Chain.first_handover_is_promo as
+
+/-- three hand-overs in a row complete (a → b → a → b): the chain statements are not vacuous -/
+example :
+    Chain.Settled (Chain.run Chain.rest0 (Chain.handoverActs false ++ Chain.handoverActs true ++ Chain.handoverActs false)) ∧
+    Chain.RestAt true (Chain.run Chain.rest0 (Chain.handoverActs false ++ Chain.handoverActs true ++ Chain.handoverActs false)) ∧
+    Chain.requests Chain.rest0 (Chain.handoverActs false ++ Chain.handoverActs true ++ Chain.handoverActs false) = 3 :=
+  Chain.three_handovers
 
 /-- **D7 (recorded finding), kernel-checked.** With a second client that leaves the former host only after the former
 host's own connection to the new host is verified, the single flag has already been spent: the former host never
